@@ -173,7 +173,7 @@ Fixpoint rok (e : expr) : Prop :=
   | Concat es | Alt es => (fix go (l : list expr) : Prop := match l with [] => True | x :: r => rok x /\ go r end) es
   | LookAround c la => rok c /\ lb_alt_const c la
   | Group c | AtomicGroup c => rok c
-  | Conditional c y n => rok c /\ rok y /\ rok n
+  | Conditional _ _ _ => False        (* stage 1: see DESIGN.md, finding F-condleak *)
   | _ => True
   end.
 Fixpoint rok_list (l : list expr) : Prop := match l with [] => True | x :: r => rok x /\ rok_list r end.
@@ -1711,6 +1711,31 @@ Proof.
   - eapply segP_ext; [|eapply seg_la_neg; eauto]. intros st Hst. cbv beta. now rewrite sem_la_eq.
   - eapply segP_ext; [|eapply seg_la_pos; eauto]. intros st Hst. cbv beta. now rewrite sem_la_eq.
   - eapply segP_ext; [|eapply seg_la_neg; eauto]. intros st Hst. cbv beta. now rewrite sem_la_eq.
+Qed.
+
+(* ---------- arrow (B), stage 1 ---------- *)
+Theorem seg_all : forall e, seg_stmt e.
+Proof.
+  induction e using expr_ind'.
+  - apply seg_empty.
+  - apply seg_any.
+  - apply seg_assertion.
+  - apply seg_literal.
+  - now apply seg_concat.
+  - now apply seg_alt.
+  - now apply seg_group.
+  - now apply seg_lookaround.
+  - now apply seg_repeat.
+  - intros g hc pc ns code ns' Hv Hnd. exfalso. cbn [visit] in Hv.
+    destruct (negb hc && negb (hard bs g (Delegate i s c k))); inversion Hv; subst code; cbn in Hnd; discriminate.
+  - apply seg_backref.
+  - now apply seg_atomic.
+  - apply seg_keepout.
+  - apply seg_contg.
+  - apply seg_bec.
+  - intros g hc pc ns code ns' _ _ _ (_ & _ & _ & Hrk). destruct Hrk.
+  - intros g1 hc pc ns code ns' Hv Hnd. exfalso. cbn [visit] in Hv.
+    destruct (negb hc && negb (hard bs g1 (SubroutineCall g))); [|discriminate]. inversion Hv; subst code; cbn in Hnd; discriminate.
 Qed.
 
 End CC.
